@@ -198,6 +198,45 @@ impl<'a> Judge<'a> {
                 "a thread's first tracing call (queue registration) could not proceed while a collector cycle was inside Reporter::report",
             ));
         }
+        // A collector cycle must end however long threads keep sending: every drain pass but the
+        // first and the last needs a command that was on its way (stamped, or parked) when the
+        // cycle began and reached its queue while the cycle was running.
+        {
+            let mut passes = 0usize;
+            let mut begin = 0u64;
+            let mut late_old = 0usize;
+            let mut last_send: HashMap<Option<usize>, u64> = HashMap::new();
+            for ev in &self.ex.log {
+                match &ev.ev {
+                    Ev::SendCommand { .. } => {
+                        last_send.insert(ev.actor, ev.seq);
+                    }
+                    Ev::DrainBegin => {
+                        if passes == 0 {
+                            begin = ev.seq;
+                            late_old = 0;
+                        }
+                        passes += 1;
+                    }
+                    Ev::RingPushed { ok: true, replay } if passes > 0 => {
+                        if *replay || last_send.get(&ev.actor).map_or(true, |s| *s < begin) {
+                            late_old += 1;
+                        }
+                    }
+                    Ev::CycleEnd { .. } => {
+                        if passes > 2 + late_old {
+                            out.push(f(
+                                "liveness",
+                                "a collector cycle keeps draining commands sent after it began",
+                                format!("{passes} drain passes in one cycle although only {late_old} command(s) sent before it began arrived during it: threads that keep tracing keep the cycle (and flush()) from ending"),
+                            ));
+                        }
+                        passes = 0;
+                    }
+                    _ => {}
+                }
+            }
+        }
         match &self.ex.outcome {
             Outcome::Deadlock => out.push(f("liveness", "deadlock", "no actor enabled before all finished")),
             Outcome::Hang => out.push(f(
